@@ -456,6 +456,32 @@ def run_history(h):
                 add("exception", f"get_array under fuzzy matching failed: {e!r}", len(h["steps"]), **common.exc_sig(e))
             if listing(d) != before:
                 add("fuzzy-write", f"a request under fuzzy matching changed the storage: {sorted(set(listing(d)) ^ set(before))}", len(h["steps"]))
+            # copying to a second frontend from the fuzzy context: whatever arrives there must be what a plain
+            # context with the same settings computes (data that only matched fuzzily must not be re-labelled)
+            d2 = hrun.mktemp("c02b-")
+            try:
+                classes = make_classes(defs)
+                st2 = strax.Context(storage=[strax.DataDirectory(d), strax.DataDirectory(d2)], register=[classes[n] for n in ORDER],
+                                    config=dict(config), processors=["single_thread"], fuzzy_for=ff, fuzzy_for_options=fo)
+                for n in ORDER[1:]:
+                    try:
+                        with common.quiet():
+                            st2.copy_to_frontend("0", n, target_frontend_id=1)
+                        cnt["fuzzy_copies"] = cnt.get("fuzzy_copies", 0) + 1
+                    except Exception:  # noqa: BLE001
+                        pass
+                plain = fresh_context(defs, config, d2, forbid_creation_of=("*",))
+                want = fresh_arrays_of(models[0])
+                for n in ORDER[1:]:
+                    if plain.is_stored("0", n):
+                        with common.quiet():
+                            got = plain.get_array("0", n, progress_bar=False)
+                        if not (len(got) == len(want[n]) and np.array_equal(got["v0"], want[n]["v0"])):
+                            add("stale-data", f"after copy_to_frontend from a fuzzy context the target frontend holds {n} = "
+                                              f"{got['v0'].tolist()} under the key of the current settings; a fresh context computes "
+                                              f"{want[n]['v0'].tolist()}", len(h["steps"]), op="fuzzy-copy")
+            finally:
+                hrun.rm(d2)
     finally:
         hrun.rm(d)
     cnt["histories"] = 1
